@@ -18,7 +18,6 @@ import (
 	"math/rand"
 	"os"
 	"reflect"
-	"regexp"
 	"sort"
 	"strings"
 	"time"
@@ -751,8 +750,6 @@ type pendingViolation struct {
 	logs   bool
 }
 
-var hugeLiteral = regexp.MustCompile(`[0-9]{8,}`)
-
 type oracle struct {
 	maxPending int
 	c          *Ctx
@@ -905,11 +902,6 @@ func (or *oracle) attribute() {
 	var lines []string
 	for _, pv := range or.pending {
 		before := pv.cs.Real.Before
-		if hugeLiteral.MatchString(pv.cs.Src) && strings.Contains(pv.cs.Src, "..") {
-			// the reference evaluator builds a range before it checks the budget: do not ask it for 1e18 elements
-			before = "(skipped)"
-			r.Count("attribution:skipped-huge-literal", 1)
-		}
 		for _, p := range probes {
 			lines = append(lines, T("optspec", p.flags.Sx(), constFnsSx(pv.fns), SBool(p.arrays), SInt(p.budget), valSx(pv.envVal), A(before)).String())
 		}
@@ -919,24 +911,111 @@ func (or *oracle) attribute() {
 		r.Mismatch("driver", "optspec", err.Error(), "")
 		return
 	}
+	verdictOf := func(line string, logs bool) (string, string) {
+		m, perr := ParseSx(line)
+		if perr != nil {
+			return "?", ""
+		}
+		if m.Tag() == "skipped" {
+			return "skipped", ""
+		}
+		if m.Tag() == "res" && len(m.List) == 5 {
+			v := m.List[3].Atom
+			if logs {
+				v = m.List[4].Atom
+			}
+			return v, "model: unoptimised " + m.List[1].String() + ", optimised " + m.List[2].String()
+		}
+		return "?", ""
+	}
+	// second round, for deviations that no single switch removes: everything switched, and everything but one
+	everything := probe{"everything", "", optRepaired, false, 1 << 40}
+	everything.flags.WalkSlice = base.WalkSlice
+	minus := func(p probe) probe {
+		q := everything
+		q.name = "all-but-" + p.name
+		q.key = p.key
+		switch p.name {
+		case "no-array-fold":
+			q.arrays = true
+		case "no-budget":
+			q.budget = int64(vm.MemoryBudget)
+		default:
+			for _, fk := range flagKeys {
+				if fk.name == p.name {
+					f := base
+					// keep every repair except this one
+					for _, other := range flagKeys {
+						if other.name != p.name {
+							other.set(&f)
+						}
+					}
+					q.flags = f
+				}
+			}
+		}
+		return q
+	}
+	var second []probe
+	second = append(second, everything)
+	for _, p := range probes[1:] {
+		second = append(second, minus(p))
+	}
+	allVerdicts := make([]map[string]string, len(or.pending))
+	details := make([]string, len(or.pending))
+	var lines2 []string
+	var idx2 []int
 	for i, pv := range or.pending {
 		verdicts := map[string]string{}
-		detail := ""
 		for j, p := range probes {
-			line := resp[i*len(probes)+j]
-			m, perr := ParseSx(line)
-			v := "?"
-			if perr == nil && m.Tag() == "res" && len(m.List) == 5 {
-				v = m.List[3].Atom
-				if pv.logs {
-					v = m.List[4].Atom
-				}
-				if j == 0 {
-					detail = "model: unoptimised " + m.List[1].String() + ", optimised " + m.List[2].String()
+			v, d := verdictOf(resp[i*len(probes)+j], pv.logs)
+			if j == 0 {
+				details[i] = d
+				if v == "skipped" {
+					r.Count("attribution:skipped-huge-range", 1)
 				}
 			}
 			verdicts[p.name] = v
 		}
+		allVerdicts[i] = verdicts
+		single := false
+		for _, p := range probes[1:] {
+			if verdicts[p.name] == "same" {
+				single = true
+			}
+		}
+		if verdicts["as-is"] == "differ" && !single {
+			idx2 = append(idx2, i)
+			for _, p := range second {
+				lines2 = append(lines2, T("optspec", p.flags.Sx(), constFnsSx(pv.fns), SBool(p.arrays), SInt(p.budget), valSx(pv.envVal), A(pv.cs.Real.Before)).String())
+			}
+		}
+	}
+	resp2, err := c.AskAll(lines2)
+	if err != nil {
+		r.Mismatch("driver", "optspec", err.Error(), "")
+		return
+	}
+	combined := map[int][]string{}
+	for k, i := range idx2 {
+		pv := or.pending[i]
+		ev, _ := verdictOf(resp2[k*len(second)], pv.logs)
+		allVerdicts[i]["everything"] = ev
+		if ev != "same" {
+			continue
+		}
+		for j, p := range second[1:] {
+			v, _ := verdictOf(resp2[k*len(second)+1+j], pv.logs)
+			allVerdicts[i][p.name] = v
+			if v == "differ" {
+				combined[i] = append(combined[i], p.key)
+			}
+		}
+		r.Count("attribution:combined", 1)
+	}
+	for i, pv := range or.pending {
+		verdicts := allVerdicts[i]
+		detail := details[i]
 		var keys []string
 		if verdicts["as-is"] == "differ" {
 			for _, p := range probes[1:] {
@@ -945,18 +1024,24 @@ func (or *oracle) attribute() {
 				}
 			}
 		}
-		if len(keys) == 0 {
-			keys = []string{pv.hint}
-		}
 		if len(keys) > 1 {
 			// several independent repairs each remove the deviation: report under the first (fixed order)
 			keys = keys[:1]
+		}
+		if len(keys) == 0 {
+			keys = combined[i] // several defects at once: one report per defect that has to be repaired
+		}
+		if len(keys) == 0 {
+			keys = []string{pv.hint}
 		}
 		mode := "struct"
 		if pv.cs.MapEnv {
 			mode = "map"
 		}
 		for _, k := range keys {
+			if k == keyUnattr {
+				r.Note("unattributed deviation: %s [%s, %s env, ConstExpr=%v] expected %s got %s verdicts=%v {%s}", pv.cs.Src, pv.pair, mode, pv.fns, pv.expect, pv.got, verdicts, detail)
+			}
 			r.Count("violation:"+k, 1)
 			r.Violate(Violation{
 				What:   pv.what + " [" + pv.pair + "]",
